@@ -205,7 +205,7 @@ def _render(node, r):
         u = node[1]
         if u == "backref":
             r.groups += 1
-            return r"(q)\%d" % r.groups
+            return r"(q)(?:\%d)" % r.groups      # (?:...) keeps a following digit out of the reference
         return UNSUP_TEXT.get(u, u)
     raise ValueError(node)
 
